@@ -1,7 +1,7 @@
 """C04 - Graceful shutdown completes in-flight requests and leaves nothing behind (mechanism clauses)."""
 import ast
 
-from ..absint import Explorer, UNKNOWN
+from ..absint import Explorer, UNKNOWN  # noqa: F401
 from ..astutil import norm, const, NO, compare, tail, names
 from ..index import AnalysisError, walk_own
 from .common import (site, key, calls_to, method_calls, nodes_with, guard_check, sample_polarity, cfg_attr, mentions_cfg, resp_var)
@@ -187,6 +187,35 @@ def r3(ctx):
             drain = [n for n in after if n.ast is not None and n.kind != "join" and any(cfg_attr(x) == "graceful_timeout" for root in n.cover for x in ast.walk(root))]
             ctx.check("C04.R3", bool(drain), key(f, "bounded-drain"), site(f), "after the `alive` loop %s does not wait for in-flight requests with a bound derived from cfg.graceful_timeout" % f.short,
                       "drain bounded by graceful_timeout: `%s`" % (drain[0].text if drain else ""))
+    # gevent: the drain loop ends early only when NO listener's pool is busy (decision table over two listeners)
+    if repo.has_func("gunicorn.workers.ggevent.GeventWorker.run"):
+        from ..absint import SpecObj
+        f = ctx.fn(repo.func("gunicorn.workers.ggevent.GeventWorker.run"))
+        g = f.cfg
+        drains = [w for w in walk_own(f.node) if isinstance(w, ast.While) and any(cfg_attr(x) == "graceful_timeout" for x in ast.walk(w.test))]
+        if drains:
+            w = drains[0]
+            first = g.nodes_of(w.body[0])
+            first = [n for n in first if n.kind in ("stmt", "for", "test")] or first
+            sleeps = [n for c in walk_own(f.node) if isinstance(c, ast.Call) and (repo.call_target(f.module, f, c) or "").endswith(".sleep") and any(a is w for a in f.module.ancestors(c)) for n in nodes_with(f, c)]
+            svar = None
+            for n in walk_own(f.node):
+                if isinstance(n, ast.For) and any(a is w for a in f.module.ancestors(n)) and isinstance(n.iter, ast.Name):
+                    svar = n.iter.id
+                if isinstance(n, (ast.GeneratorExp, ast.ListComp)) and any(a is w for a in f.module.ancestors(n)) and isinstance(n.generators[0].iter, ast.Name):
+                    svar = svar or n.generators[0].iter.id
+            ctx.need(svar and first and sleeps, "C04.R3: gevent drain loop not understood")
+
+            def server(busy):
+                return SpecObj(pool=SpecObj(size=10, free_count=(lambda b=busy: 7 if b else 10)))
+            for pattern in ((False, False), (True, False), (False, True), (True, True)):
+                ex = Explorer(f)
+                outs = ex.run(first[0], {svar: tuple(server(b) for b in pattern)}, stop=lambda n: n in sleeps)
+                got = set("stop-draining" if o.kind == "return" else ("keep-draining" if o.kind == "stop" else o.kind) for o in outs)
+                want = "keep-draining" if any(pattern) else "stop-draining"
+                ctx.check("C04.R3", got == {want}, key(f, "gevent-drain|%s" % (pattern,)), site(f, text="listeners busy=%s" % (pattern,)),
+                          "with listener pools busy=%s the graceful drain loop does %s, required %s: a request in flight on one listener is cut as soon as another listener is idle" % (
+                              pattern, sorted(got), want), want)
     # the thread pool is shut down without cancelling queued (already accepted) requests
     for f in repo.cls("gunicorn.workers.gthread.ThreadWorker").methods.values():
         for c in method_calls(f, "shutdown"):
